@@ -17,5 +17,5 @@ INVARIANT TrainStatic
 INVARIANT Atomic
 INVARIANT OptionSemantics
 INVARIANT Frame
-INVARIANT Emit
+INVARIANT EmitThird
 CHECK_DEADLOCK FALSE
